@@ -401,6 +401,7 @@ def to_cfg(run):
     qi, qf, p, q, p2, q2 = (S.sym(n) for n in ("qi", "qf", "p", "q", "p2", "q2"))
     a = "a"
     wi, wf_, w1, w2 = (I.Z(z3.Const(n, G.W)) for n in ("wi", "wf", "w1", "w2"))
+    w3 = I.Z(z3.Const("w3", G.W))       # an arc labelled with the byte 0: a falsy label that is not EPSILON
     S0 = S.sym("S0")
     for rec_dir in ("right", "left"):
         name = f"C17/wfsa.base.WFSA.to_cfg/construction[{rec_dir}]"
@@ -424,7 +425,7 @@ def to_cfg(run):
 
             it.natives["genlm.grammar.cfg.CFG"] = I.Native("CFG", CFGc)
             it.natives["genlm.grammar.cfg._gen_nt"] = I.Native("_gen_nt", lambda i2, x, k: S0)
-            alphabet = {"a", EPS}
+            alphabet = {"a", 0, EPS}
             for st_ in (qi, qf, p, q, p2, q2):
                 path.assume(st_.e != S0.e)      # states are not named like the start symbol (else they are renamed: wf obligation below)
                 for sym_ in alphabet - {EPS}:       # a state MAY be named '' (from_string's initial state): it is not a symbol of V
@@ -432,7 +433,7 @@ def to_cfg(run):
                     if isinstance(r_, I.Z):
                         path.assume(z3.Not(r_.e))
             selfobj = Bag(R=Bag(), alphabet=alphabet, I=[(qi, wi)], F=[(qf, wf_)], states=[qi, qf, p, q, p2, q2],
-                          arcs=I.Native("arcs", lambda i2, x, k: [(p, a, q, w1), (p2, EPS, q2, w2)]))
+                          arcs=I.Native("arcs", lambda i2, x, k: [(p, a, q, w1), (p2, EPS, q2, w2), (p, 0, q2, w3)]))
             fobj = I.FuncObj(fn, I.Env(None, {"EPSILON": EpsTok("")}), "WFSA.to_cfg")
             it.call_func(fobj, [selfobj], {"S": S0, "recursion": rec_dir})
             return list(adds), made
@@ -443,14 +444,14 @@ def to_cfg(run):
             run.obligation(name, "out-of-subset", role="auxiliary", detail=str(e))
             continue
         if rec_dir == "right":
-            want = [(wi, S0, qi), (wf_, qf), (w1, p, "a", q), (w2, p2, q2)]
+            want = [(wi, S0, qi), (wf_, qf), (w1, p, "a", q), (w2, p2, q2), (w3, p, 0, q2)]
         else:
-            want = [(wf_, S0, qf), (wi, qi), (w1, q, p, "a"), (w2, q2, p2)]
+            want = [(wf_, S0, qf), (wi, qi), (w1, q, p, "a"), (w2, q2, p2), (w3, q2, p, 0)]
         ok = True
         why = None
         for path, (have, made) in results:
             ok, why = _multiset_equal(have, want)
-            if ok and made.get("V") != {"a"}:
+            if ok and made.get("V") != {"a", 0}:
                 ok, why = False, ("vocabulary", made.get("V"))
             if not ok:
                 break               # every path must conform (a state may be named '', like EPSILON)
